@@ -85,6 +85,8 @@ class Checker:
         adj_lst = {n.id: [] for n in self.model.nodes}
         nodes_id_lst = set(adj_lst.keys())
 
+        visited = set()
+
         def dfs(cur, par):
             if cur >= len(self.model.nodes):
                 raise LvsModelError(f"Non-existing node id {cur}")
@@ -93,6 +95,9 @@ class Checker:
                 raise LvsModelError(f"Malformed node id {cur}")
             if node.parent != par:
                 raise LvsModelError(f"Node {cur} has a wrong parent")
+            if cur in visited:
+                return
+            visited.add(cur)
             for ve in node.v_edges:
                 if ve.dest is None or not ve.value:
                     raise LvsModelError(f"Node {cur} has a malformed edge")
@@ -127,6 +132,12 @@ class Checker:
                 adj_lst[cur].append(key_node_id)
 
         dfs(self.model.start_id, None)
+        # Nodes that cannot be reached from the root are tolerated, but the sanity rules hold for every node
+        for index, node in enumerate(self.model.nodes):
+            if node.id != index:
+                raise LvsModelError(f"Malformed node id {index}")
+            if index not in visited:
+                dfs(index, node.parent)
         top_order(nodes_id_lst, adj_lst)
         self._trust_roots = {
             n for n in in_deg_nodes if not self.model.nodes[n].sign_cons
